@@ -838,7 +838,7 @@ def _model(drv, op, doc):
 
 def _cmp_conv(res, name, impl, ierr, mod, merr):
     """exact comparison of a converter result (tree incl. key order and decimal strings) or of the error kind"""
-    if ierr == 'other:Error':
+    if ierr in ('other:Error', 'libyang-crash'):
         # libyang refused the document inside the converter: validation is not modelled, the monitor judges this
         res.stats['libyang_rejection_inside_converter'] += 1
         return
@@ -1062,14 +1062,72 @@ class quiet_stderr:
         os.close(self.null)
 
 
+class Probe:
+    """libyang (oopt-gnpy-libyang) can SEGFAULT on some documents (observed: a ROADM whose params hold nothing but an empty
+    `restrictions` container). A crash inside the check's own process would take the whole run down, so every document
+    is first shown to a helper process that does nothing but `load_data`; if the helper dies the document is classified
+    'libyang-crash' and is not validated in-process."""
+    CODE = ('import sys, os, logging\n'
+            'logging.disable(logging.CRITICAL)\n'
+            'os.dup2(os.open(os.devnull, os.O_WRONLY), 2)\n'
+            'from gnpy.tools.yang_convert_utils import load_data\n'
+            'for line in sys.stdin:\n'
+            '    try:\n'
+            '        load_data(line)\n'
+            '        print("ok", flush=True)\n'
+            '    except Exception as e:\n'
+            '        print("err", flush=True)\n')
+
+    def __init__(self):
+        self.p = None
+
+    def start(self):
+        import subprocess
+        import sys
+        self.p = subprocess.Popen([sys.executable, '-c', self.CODE], stdin=subprocess.PIPE, stdout=subprocess.PIPE,
+                                  text=True, bufsize=1)
+
+    def crashes(self, ydoc):
+        if self.p is None or self.p.poll() is not None:
+            self.start()
+        try:
+            self.p.stdin.write(json.dumps(ydoc) + '\n')
+            self.p.stdin.flush()
+            ans = self.p.stdout.readline()
+        except BrokenPipeError:
+            ans = ''
+        if ans == '':
+            self.p = None
+            return True
+        return False
+
+
+PROBE = Probe()
+
+
 def validate(y):
     from gnpy.tools.yang_convert_utils import load_data
+    if PROBE.crashes(y):
+        return 'libyang-crash'
     try:
         with quiet_stderr():
             load_data(json.dumps(y))
         return None
     except Exception as e:  # noqa: BLE001
         return err_kind(e)
+
+
+def safe_y2l(doc):
+    """yang_to_legacy(doc) in-process, unless the document it would hand to libyang crashes libyang"""
+    from gnpy.tools.convert_legacy_yang import legacy_to_yang, yang_to_legacy
+    try:
+        ydoc = plain(legacy_to_yang(copy.deepcopy(doc)))
+    except Exception:  # noqa: BLE001 – yang_to_legacy will raise the same before it reaches libyang
+        return _impl(yang_to_legacy, doc)
+    if PROBE.crashes(ydoc):
+        LAST_MSG[0] = 'libyang crashed (segmentation fault) on the YANG form of this document'
+        return None, 'libyang-crash'
+    return _impl(yang_to_legacy, doc)
 
 
 def run_doc(case, drv):
@@ -1093,18 +1151,22 @@ def run_doc(case, drv):
         res.stats[f'rejected_by_converter_{yerr}'] += 1
         res.stats['malformed'] += 1
         # the loader must refuse it too (it runs the same conversion first)
-        l, lerr = _impl(yang_to_legacy, d)
+        l, lerr = safe_y2l(d)
         if lerr is None:
             res.fail('rejects: legacy_to_yang refuses the document but yang_to_legacy (the loader path) accepts it')
         return res
     verr = validate(y)
-    l, lerr = _impl(yang_to_legacy, y)
+    if verr == 'libyang-crash':
+        # neither accepted nor rejected: third-party crash on the input itself (outside the property's quantifier)
+        res.stats['libyang_crash_on_generated_input'] += 1
+        return res
+    l, lerr = safe_y2l(y)
     if verr is not None:
         res.stats['malformed'] += 1
         res.stats[f'rejected_by_libyang_{case.get("damage", "generated")}'] += 1
         if lerr is None:
             res.fail('rejects: libyang refuses the YANG form but yang_to_legacy accepted it')
-        _, l0err = _impl(yang_to_legacy, d)
+        _, l0err = safe_y2l(d)
         if l0err is None:
             res.fail('rejects: libyang refuses the document but the loader path (yang_to_legacy on the legacy form) accepted it')
         return res
@@ -1120,14 +1182,14 @@ def run_doc(case, drv):
     y2, y2err = _impl(legacy_to_yang, y)
     y2msg = LAST_MSG[0]
     _cmp_conv(res, 'legacy_to_yang(yang)', y2, y2err, *_model(drv, 'c18.to_yang', y))
-    l2, l2err = _impl(yang_to_legacy, l)
+    l2, l2err = safe_y2l(l)
     l2msg = LAST_MSG[0]
     _cmp_conv(res, 'yang_to_legacy(legacy)', l2, l2err, *_model(drv, 'c18.to_legacy', l))
     y3, y3err = _impl(legacy_to_yang, l)
     y3msg = LAST_MSG[0]
     _cmp_conv(res, 'legacy_to_yang(roundtrip)', y3, y3err, *_model(drv, 'c18.to_yang', l))
     # the loader path on the legacy form itself (what load_gnpy_json does with a legacy file)
-    l0, l0err = _impl(yang_to_legacy, d)
+    l0, l0err = safe_y2l(d)
     l0msg = LAST_MSG[0]
     _cmp_conv(res, 'yang_to_legacy(original)', l0, l0err, *_model(drv, 'c18.to_legacy', d))
     # --- monitor: idempotence
@@ -1371,6 +1433,11 @@ def run_alias(case, drv):
 
 
 def shrink_candidates(case):
+    import itertools
+    return itertools.islice(_shrink_candidates(case), 36)
+
+
+def _shrink_candidates(case):
     if case['kind'] in ('fmt',):
         for i in range(len(case['xs'])):
             yield {'kind': 'fmt', 'xs': [case['xs'][i]]}
@@ -1378,6 +1445,8 @@ def shrink_candidates(case):
     if case['kind'] == 'alias':
         return
     d = case['doc']
+    if not isinstance(d, dict) or 'foo' in d:
+        return
     if case['kind'] == 'equipment':
         for key in list(d):
             if isinstance(d[key], list) and len(d[key]) > 1:
@@ -1393,21 +1462,46 @@ def shrink_candidates(case):
                         del c['doc'][key][i][k]
                         yield c
     elif case['kind'] == 'topology':
-        for i, e in enumerate(d['elements']):
+        els = d.get('elements', [])
+
+        def without(idx):
+            c = copy.deepcopy(case)
+            gone = {els[i]['uid'] for i in idx}
+            c['doc']['elements'] = [e for i, e in enumerate(els) if i not in idx]
+            c['doc']['connections'] = [x for x in d.get('connections', []) if x['from_node'] not in gone and x['to_node'] not in gone]
+            for e in c['doc']['elements']:
+                p_ = e.get('params', {})
+                for k in [k for k in p_ if k.startswith('per_degree')]:
+                    if isinstance(p_[k], dict):
+                        p_[k] = {dg: v for dg, v in p_[k].items() if dg not in gone}
+                        if not p_[k]:
+                            del p_[k]
+                    else:
+                        p_[k] = [x for x in p_[k] if x.get('from_degree') not in gone and x.get('to_degree') not in gone]
+                        if not p_[k]:
+                            del p_[k]
+            return c
+        n = len(els)
+        if n > 1:
+            yield without(set(range(n // 2)))
+            yield without(set(range(n // 2, n)))
+            for i in range(n):
+                yield without({i})
+        for i, e in enumerate(els):
             for sect in ('params', 'operational'):
                 for k in list(e.get(sect, {})):
                     c = copy.deepcopy(case)
                     del c['doc']['elements'][i][sect][k]
                     yield c
     elif case['kind'] == 'services':
-        for i in range(len(d['path-request'])):
+        for i in range(len(d.get('path-request', []))):
             if len(d['path-request']) > 1:
                 c = copy.deepcopy(case)
                 del c['doc']['path-request'][i]
                 c['doc'].pop('synchronization', None)
                 yield c
     elif case['kind'] == 'spectrum':
-        for i in range(len(d['spectrum'])):
+        for i in range(len(d.get('spectrum', []))):
             if len(d['spectrum']) > 1:
                 c = copy.deepcopy(case)
                 del c['doc']['spectrum'][i]
